@@ -337,7 +337,13 @@ func (c *caseRun) exec(o op) string {
 		w.mu.Unlock()
 		return "ok"
 	case "cancel":
-		w.fakes[o.sid-1].cancel()
+		f := w.fakes[o.sid-1]
+		w.mu.Lock()
+		if !f.parked && !f.hooked {
+			f.ended = "peer context cancelled while the writer was idle"
+		}
+		w.mu.Unlock()
+		f.cancel()
 		return "ok"
 	case "drel":
 		w.mu.Lock()
@@ -457,7 +463,13 @@ func (c *caseRun) step(o op) bool {
 	if i := strings.IndexByte(expR, ' '); i >= 0 {
 		expR = expR[:i]
 	}
-	gotS, gotR, ok := w.await(parts[1], expR)
+	var gotS, gotR string
+	var ok bool
+	if strings.HasPrefix(res, "HANG") || res == "GOEXIT" {
+		gotS, gotR, _ = w.fakeObs(true) // the pool is stuck: do not wait for a state it will never reach
+	} else {
+		gotS, gotR, ok = w.await(parts[1], expR)
+	}
 	// streams opened by the handler during this step
 	w.mu.Lock()
 	for i := nfakes; i < len(w.fakes); i++ {
@@ -482,7 +494,20 @@ func (c *caseRun) step(o op) bool {
 	}
 	fatal := w.fatal
 	notes := append([]string{}, w.notes...)
+	stale := ""
+	if !ok {
+		// the pool did not reach the predicted state: is a stream that has ended still in the pool?
+		for _, f := range w.fakes {
+			if f.ended != "" && !f.hooked {
+				stale = fmt.Sprintf("stream %d ended (%s) but the pool never removed it: its index entries and tags stay, later sends still target it", f.sid, f.ended)
+				break
+			}
+		}
+	}
 	w.mu.Unlock()
+	if stale != "" {
+		c.violate("streampool.oracle.untargeted", stale)
+	}
 	gotT := "?"
 	if ok || !strings.HasPrefix(res, "HANG") {
 		gotT = w.tagObs()
